@@ -884,6 +884,15 @@ fn meta_json<'tcx>(tcx: TyCtxt<'tcx>, crate_name: &str, nbodies: usize, out: &mu
         }
         first = false;
         let _ = write!(out, "{{\"path\":{},\"ty\":{}", jstr(&path_of(tcx, did)), jstr(&ty_str(ty)));
+        if ty.is_str() || matches!(ty.kind(), ty::Ref(_, inner, _) if inner.is_str()) {
+            if let Ok(val) = tcx.const_eval_poly(did) {
+                if let Some(bytes) = val.try_get_slice_bytes_for_diagnostics(tcx) {
+                    if let Ok(sv) = std::str::from_utf8(bytes) {
+                        let _ = write!(out, ",\"sv\":{}", jstr(sv));
+                    }
+                }
+            }
+        }
         if ty.is_integral() || ty.is_bool() || ty.is_char() {
             if let Ok(val) = tcx.const_eval_poly(did) {
                 if let Some(si) = val.try_to_scalar_int() {
